@@ -44,7 +44,8 @@ type LPInput struct {
 	RID      string  `json:"rid"`
 	Rev      string  `json:"rev"`
 	Pods     []LPPod `json:"pods"`
-	Filter   string  `json:"filter"` // "none" | "unordered"
+	Filter   string  `json:"filter"` // "none" | "unordered" | "ordered"
+	Part     *IOS    `json:"partition,omitempty"` // ordered filter: ctx.DesiredPartition
 	Desired  int     `json:"desired"`
 	Planned  int     `json:"planned"`
 }
@@ -55,6 +56,7 @@ type LPObs struct {
 	Labels [][3]string `json:"labels"`
 	N1     int         `json:"n1"`
 	Second *int        `json:"second"`
+	Perm   [][3]string `json:"perm,omitempty"` // ordered filter: labels (input order) when the same pods are listed in reverse order
 }
 
 type labelPatchEngine struct{}
@@ -218,6 +220,37 @@ func (labelPatchEngine) Gen(r *rand.Rand, idx int, tier string) any {
 		in.Planned = scale(n)
 		in.Desired = noNeed + scale(maxInt(n-noNeed, 0))
 	}
+	if idx%5 == 2 && n > 0 && len(in.Pods) > 0 {
+		// a StatefulSet rolled back in batches: pods are "<name>-<ordinal>", all on the target revision, those below the
+		// partition did not need the rollback; the informer lists them in no particular order
+		ords := r.Perm(len(in.Pods) + r.Intn(3))
+		for i := range in.Pods {
+			p := &in.Pods[i]
+			p.Name = fmt.Sprintf("web-%d", ords[i])
+			p.Owner, p.RSTmpl, p.PTH, p.CRH, p.NNU = "", "", "", in.Rev, ""
+			if chance(r, 10) {
+				p.CRH = "web-5c8a"
+			}
+			if chance(r, 60) {
+				p.RID, p.BID = "", ""
+			}
+		}
+		// planned / partition as the StatefulSet control's CalculateBatchContext derives them from the number k of pods marked
+		// no-need-update: planned = batch(n), partition = n - batch(n-k)
+		step := in.Batches[in.Cur].K8s()
+		scale := func(total int) int {
+			v, _ := intstr.GetScaledValueFromIntOrPercent(&step, total, true)
+			return minInt(maxInt(v, 0), total)
+		}
+		k := r.Intn(n + 1)
+		in.Filter = "ordered"
+		in.Planned = scale(n)
+		in.Desired = in.Planned
+		in.Part = &IOS{T: "int", V: int64(n - scale(n-k))}
+		if chance(r, 3) {
+			in.Pods[r.Intn(len(in.Pods))].Name = "standalone"
+		}
+	}
 	return in
 }
 
@@ -266,8 +299,19 @@ func buildPod(p LPPod) *corev1.Pod {
 	return pod
 }
 
-func (labelPatchEngine) Run(inAny any) any {
+func (e labelPatchEngine) Run(inAny any) any {
 	in := inAny.(LPInput)
+	obs := e.run(in, false)
+	if in.Filter == "ordered" && obs.Panic == "" && obs.Err == "" {
+		o2 := e.run(in, true)
+		if o2.Panic == "" && o2.Err == "" {
+			obs.Perm = o2.Labels
+		}
+	}
+	return obs
+}
+
+func (labelPatchEngine) run(in LPInput, reversed bool) LPObs {
 	var objs []client.Object
 	rsSeen := map[string]bool{}
 	for _, p := range in.Pods {
@@ -293,10 +337,19 @@ func (labelPatchEngine) Run(inAny any) any {
 			}
 			pods = append(pods, pod)
 		}
+		if reversed {
+			for a, b := 0, len(pods)-1; a < b; a, b = a+1, b-1 {
+				pods[a], pods[b] = pods[b], pods[a]
+			}
+		}
 		bc := &batchcontext.BatchContext{RolloutID: in.RID, CurrentBatch: int32(in.Cur), UpdateRevision: in.Rev,
 			Replicas: int32(in.Replicas), Pods: pods, DesiredUpdatedReplicas: int32(in.Desired), PlannedUpdatedReplicas: int32(in.Planned)}
 		if in.Filter == "unordered" {
 			bc.FilterFunc = labelpatch.FilterPodsForUnorderedUpdate
+		}
+		if in.Filter == "ordered" {
+			bc.FilterFunc = labelpatch.FilterPodsForOrderedUpdate
+			bc.DesiredPartition = in.Part.K8s()
 		}
 		defer func() {
 			if rec := recover(); rec != nil {
@@ -346,15 +399,24 @@ func (labelPatchEngine) Coq(inAny any, obsAny any) string {
 	if in.Filter == "unordered" {
 		filter = "FUnordered"
 	}
+	if in.Filter == "ordered" {
+		filter = emit.App("FOrdered", in.Part.Coq())
+	}
 	input := emit.App("Build_lp_input", emit.ListOf(in.Batches, IOS.Coq), emit.Z(int64(in.Replicas)), emit.Z(int64(in.Cur)),
 		emit.Str(in.RID), emit.Str(in.Rev), pods, filter, emit.Z(int64(in.Desired)), emit.Z(int64(in.Planned)))
 	second := "None"
 	if obs.Second != nil {
 		second = emit.Some(emit.Z(int64(*obs.Second)))
 	}
+	perm := "None"
+	if obs.Perm != nil {
+		perm = emit.Some(emit.ListOf(obs.Perm, func(l [3]string) string {
+			return "(" + emit.Str(l[0]) + ", " + emit.Str(l[1]) + ", " + emit.Str(l[2]) + ")"
+		}))
+	}
 	o := emit.App("Build_lp_obs", emit.Bool(obs.Panic != ""), emit.Bool(obs.Err != ""),
 		emit.ListOf(obs.Labels, func(l [3]string) string {
 			return "(" + emit.Str(l[0]) + ", " + emit.Str(l[1]) + ", " + emit.Str(l[2]) + ")"
-		}), emit.Z(int64(obs.N1)), second)
+		}), emit.Z(int64(obs.N1)), second, perm)
 	return emit.Pair(input, o)
 }
